@@ -48,13 +48,16 @@ OwnT(s, i, tc) == IF tc.t # None THEN tc.t ELSE s.docs[i].tdef
 \*  tcli : --timeout-seconds (None = not given)
 \*  pre / app : test cases of the shared prepend / append document (<<>> = none)
 \*  via : "cli" (-P / -A: every document) | "fm" (front-matter of the first document only)
+\*        | "fm2" (the first AND the second document, both Markdown, each name shared documents OF THEIR OWN in their
+\*          front-matter: pre / app belong to document 1, pre2 / app2 to document 2)
 \*  noshell : --shell points to a program that does not exist
 \*  dirarg : the documents are not named one by one; the directory that contains them (and a nested directory, and
 \*           files that are no test documents) is given instead -- the order among them is then unspecified
 \*  rel    : the shared documents given with -P / -A are named RELATIVE to the current directory, which is not the directory
 \*           of the tested documents (where like-named decoy documents lie); no effect on what runs
 Run(docs, tcli, pre, app, via, noshell) ==
-    [docs |-> docs, tcli |-> tcli, pre |-> pre, app |-> app, via |-> via, noshell |-> noshell, dirarg |-> FALSE, compat |-> FALSE, rel |-> FALSE]
+    [docs |-> docs, tcli |-> tcli, pre |-> pre, app |-> app, via |-> via, noshell |-> noshell, dirarg |-> FALSE, compat |-> FALSE, rel |-> FALSE,
+     pre2 |-> <<>>, app2 |-> <<>>]
 \*  compat : --cram-compat is given: Markdown documents are executed like Cram documents (one script per document, Cram
 \*           format defaults); their syntax (front-matter, inline configuration) stays Markdown
 Script(s, i) == s.docs[i].fmt = "cram" \/ s.compat
@@ -66,10 +69,14 @@ StreamWF(s) == \A i \in 1..Len(s.docs) : \A x \in 1..Len(s.docs[i].tests) :
                   ~s.docs[i].tests[x].sinline => s.docs[i].tests[x].stream = DefaultStream(s, i)
 
 FaultKinds == {"unreadable", "unparsable", "missing"}      \* scrut cannot do its job: exit status 1, nothing runs
-HasShared(s, i) == s.via = "cli" \/ (i = 1 /\ s.docs[1].fmt = "md")   \* front-matter exists only in Markdown
+HasShared(s, i) == \/ s.via = "cli"
+                   \/ (i = 1 /\ s.docs[1].fmt = "md")                    \* front-matter exists only in Markdown
+                   \/ (s.via = "fm2" /\ i = 2 /\ s.docs[2].fmt = "md")
+SharedPre(s, i) == IF s.via = "fm2" /\ i = 2 THEN s.pre2 ELSE s.pre
+SharedApp(s, i) == IF s.via = "fm2" /\ i = 2 THEN s.app2 ELSE s.app
 Assembled(s, i) == IF s.docs[i].fault = "nomatch" THEN <<>>
-                   ELSE (IF HasShared(s, i) THEN s.pre ELSE <<>>) \o s.docs[i].tests
-                        \o (IF HasShared(s, i) THEN s.app ELSE <<>>)
+                   ELSE (IF HasShared(s, i) THEN SharedPre(s, i) ELSE <<>>) \o s.docs[i].tests
+                        \o (IF HasShared(s, i) THEN SharedApp(s, i) ELSE <<>>)
 
 \* effective document limit in ticks (None = unlimited): command line beats front-matter beats default
 TotalLimit(s, i) ==
@@ -147,13 +154,18 @@ C05ok(s, o) ==
 
 \* ---- C14
 \* scenarios for C14 have well separated durations (0 or 3) and limits (1 or 6)
+\* time the commands before x have used of the document limit (family TwoSlow: an earlier slow command that stayed inside
+\* every limit; everywhere else this is 0)
+RECURSIVE UsedBefore(_, _, _)
+UsedBefore(s, i, x) == IF x <= 1 THEN 0
+                       ELSE UsedBefore(s, i, x - 1) + (IF Assembled(s, i)[x - 1].det THEN 0 ELSE Assembled(s, i)[x - 1].dur)
 ExceedsAt(s, i, x) ==    \* the command at x, if reached, runs longer than an applicable limit
     LET tc == Assembled(s, i)[x]
-        before == 0      \* replayed scenarios have at most one slow test case per document
         T == TotalLimit(s, i)
-    IN ~tc.det /\ tc.dur > 0 /\ ((OwnT(s, i, tc) # None /\ ~Script(s, i) /\ tc.dur > OwnT(s, i, tc)) \/ (T # None /\ tc.dur > T))
+    IN ~tc.det /\ tc.dur > 0 /\ ((OwnT(s, i, tc) # None /\ ~Script(s, i) /\ tc.dur > OwnT(s, i, tc))
+                                 \/ (T # None /\ UsedBefore(s, i, x) + tc.dur > T))
 FirstLimit(s, i, x) == LET tc == Assembled(s, i)[x] IN
-    MinDefined(IF ~Script(s, i) THEN OwnT(s, i, tc) ELSE None, TotalLimit(s, i))
+    MinDefined(IF ~Script(s, i) /\ OwnT(s, i, tc) # None THEN UsedBefore(s, i, x) + OwnT(s, i, tc) ELSE None, TotalLimit(s, i))
 RECURSIVE WaitUpTo(_, _, _)
 WaitUpTo(s, i, x) == IF x = 0 THEN 0 ELSE Assembled(s, i)[x].wait + WaitUpTo(s, i, x - 1)
 C14ok(s, o) ==
